@@ -487,7 +487,65 @@ def readme_claims(path):
 
 
 # ------------------------------------------------------------------ the check
+def impl_unit_info(word):
+    """what the interpreter says about a spelling: `%u <word>` and `ka --unit <word>` share print_unit_info"""
+    import io, contextlib
+    import ka.interpret as I
+    buf = io.StringIO()
+    try:
+        with contextlib.redirect_stdout(buf):
+            I.execute_interpreter_command("%u " + word)
+        a = buf.getvalue()
+        buf2 = io.StringIO()
+        with contextlib.redirect_stdout(buf2):
+            I.print_unit_info(word)
+        return dict(word=word, cmd=a, direct=buf2.getvalue())
+    except C.CaseTimeout:
+        raise
+    except BaseException as x:
+        return dict(word=word, escaped=type(x).__name__)
+
+
+def impl_unit_names(_):
+    """the live registry's spellings per unit (symbol, singular, plural) with the unit's own description"""
+    import ka.units as U
+    import ka.interpret as I
+    return [(u.symbol, u.singular_name, u.plural_name, I.format_unit_info(u)) for u in U.UNITS]
+
+
+def unit_info_lane(ctx):
+    """A spelling that is itself a registered unit always means that unit — also where the interpreter describes it:
+    `%u` / `--unit` under the symbol, the singular and the plural name print the description of that very unit
+    (seven registered spellings also read as prefix + another unit: min, pt, ft, cd, yd, ...)."""
+    rep = ctx["report"]
+    names = C.run_impl(impl_unit_names, [0], ctx["rundir"], limit=60.0)[0]
+    if not isinstance(names, list):
+        return 0
+    words, want = [], {}
+    for sym, sing, plur, desc in names:
+        for w in (sym, sing, plur):
+            if w and " " not in w and w not in want and w != NOPLURAL:
+                want[w] = desc
+                words.append(w)
+    n = 0
+    for o in C.run_impl(impl_unit_info, words, ctx["rundir"], limit=20.0):
+        n += 1
+        w = o.get("word")
+        if o.get("hung") or w is None:
+            continue
+        if o.get("escaped"):
+            continue            # C06's business
+        for how, got in (("%u", o.get("cmd")), ("--unit", o.get("direct"))):
+            if (got or "").strip() != want[w].strip():
+                rep.violation(dict(kind="unit-info", word=w), "C13 fails: `%s %s` describes %r, but `%s` is the registered unit %r"
+                              % (how, w, (got or "").strip().split("\n")[0][:60], w, want[w].split("\n")[0][:60]),
+                              dict(text="%s %s" % (how, w), word=w, impl=(got or "")[:300], expected=want[w][:300]))
+                break
+    return n
+
+
 def run(ctx):
+    unit_info_lane(ctx)
     C.seam_check(ctx["report"], ctx["rundir"], "C13", wrappers=[],
                  pairs=[("ms = 3; 5 ms", "5 ms"), ("kg = 70; 2 kg", "2 kg"), ("{1 km : km in {7, 8}}", "{1 km, 1 km}"), ("m = 3; 2 m", "2 m"), ("min = 3; 2 min", "2 min"),
                         ("(1 km | m) == 1000", "1"), ("(1 mg | kg) * 1000000 == 1", "1"), ("1 km m", "1000 m^2"), ("(1 m^2) to km m", "1/1000"), ("(3 km | m) == 3000", "1"),
